@@ -87,7 +87,7 @@ def _ring_or_box(r: random.Random, n_labels: int, wide: float) -> Dict[str, Any]
     }
 
 
-def gen_scenario(r: random.Random, task: Optional[str] = None, n_frames: Optional[int] = None, big: bool = False, fp_share: Optional[float] = None, overrides: Optional[Dict[str, Any]] = None, det: Optional[Dict[str, Any]] = None) -> Scenario:
+def gen_scenario(r: random.Random, task: Optional[str] = None, n_frames: Optional[int] = None, big: bool = False, fp_share: Optional[float] = None, overrides: Optional[Dict[str, Any]] = None, det: Optional[Dict[str, Any]] = None, categories: Optional[List[str]] = None, target: Optional[List[str]] = None, merge: Optional[bool] = None) -> Scenario:
     task = task or r.choice(["detection", "detection", "tracking", "fp_validation"])
     n_frames = n_frames or r.randint(1, 4 if not big else 8)
     wide = r.choice([30.0, 60.0, 100.0])
@@ -98,10 +98,13 @@ def gen_scenario(r: random.Random, task: Optional[str] = None, n_frames: Optiona
     ego_yawrate = r.uniform(-0.5, 0.5)
     t0 = 1_600_000_000_000_000 + r.randint(0, 10**9)
     dt = r.choice([100_000, 100_000, 50_000, 500_000])
-    merge = r.random() < 0.3
+    _merge_default = r.random() < 0.3
+    merge = _merge_default if merge is None else merge
 
     n_tracks = r.randint(0, 10 if not big else 20)
     cats = GT_CATEGORIES if task != "fp_validation" else [c for c in GT_CATEGORIES if c[0] == "false_positive"]
+    if categories is not None:
+        cats = [c for c in GT_CATEGORIES if c[0] in categories]
     _fp_default = r.choice([0.0, 0.15, 0.4]) if task != "fp_validation" else 1.0
     fp_share = _fp_default if fp_share is None else fp_share
     tracks = []
@@ -200,7 +203,8 @@ def gen_scenario(r: random.Random, task: Optional[str] = None, n_frames: Optiona
 
     # ---- evaluation config -------------------------------------------------------------
     tl_pool = ["car", "bicycle", "pedestrian"] if merge else ["car", "truck", "bus", "bicycle", "motorbike", "pedestrian"]
-    target = r.sample(tl_pool, r.randint(1, len(tl_pool)))
+    _target_default = r.sample(tl_pool, r.randint(1, len(tl_pool)))
+    target = _target_default if target is None else list(target)
     if r.random() < 0.35:
         target.append("unknown")
     # NOTE: in tracking the library crashes (KeyError in evaluate_frame) when a previous frame paired a non-target
